@@ -15,6 +15,36 @@ def c02admit : Drv where
       | .error e => ((), if reasonClass e == "other" then "err other" else "err " ++ reasonClass e ++ " " ++ e.name)
     | _ => ((), "bad-op")
 
+/-- `hop <best> <flags> <acceptPriv> <prevPublic> <scid> <inAmt> <inCltv> <outAmt> <outCltv> <kind…>` with kind
+    `chan <announce> <live> <enabled> <connected> <scidPrivacy> <alias> <cpMin> <feeProp> <feeBase> <delta> <hasPrev> <pProp>
+    <pBase> <pDelta>` | `phantom` | `intercept` | `unknown`  →  `reject <Reason>` | `forward <amt> <cltv>` |
+    `intercept <inbound> <expected> <expiry>` | `phantom <amt> <cltv>`;
+    `release <inbound> <expected> <expiry> <amt>` (`forward_intercepted_htlc(.., amt)`) → `offer <amt> <cltv>` -/
+def c02hop : Drv where
+  σ := Unit
+  init := ()
+  step := fun _ ws =>
+    let b (w : String) : Bool := w == "1"
+    let answer (best fl ap pp scid ia ic oa oc : String) (hop : NextHop) : String :=
+      let o := outcome ⟨nat! fl, b ap⟩ (nat! best) hop ⟨b pp, nat! scid, nat! ia, nat! ic, nat! oa, nat! oc⟩
+      match o with
+      | .reject r => "reject " ++ r.name
+      | .forward a c => s!"forward {a} {c}"
+      | .intercepted i e x => s!"intercept {i} {e} {x}"
+      | .phantomRecv a c => s!"phantom {a} {c}"
+    match ws with
+    | ["hop", best, fl, ap, pp, scid, ia, ic, oa, oc, "chan", an, lv, en, cn, sp, al, mn, fp, fb, d, hp, pfp, pfb, pd] =>
+      let prev : Option FwdGen.Cfg := if b hp then some ⟨nat! pfp, nat! pfb, nat! pd⟩ else none
+      ((), answer best fl ap pp scid ia ic oa oc (.chan ⟨b an, b lv, b en, b cn, b sp, nat! al, nat! mn, ⟨nat! fp, nat! fb, nat! d⟩, prev⟩))
+    | ["hop", best, fl, ap, pp, scid, ia, ic, oa, oc, "phantom"] => ((), answer best fl ap pp scid ia ic oa oc .phantom)
+    | ["hop", best, fl, ap, pp, scid, ia, ic, oa, oc, "intercept"] => ((), answer best fl ap pp scid ia ic oa oc .interceptScid)
+    | ["hop", best, fl, ap, pp, scid, ia, ic, oa, oc, "unknown"] => ((), answer best fl ap pp scid ia ic oa oc .unknown)
+    | ["release", i, e, x, amt] =>
+      match releaseIntercepted (.intercepted (nat! i) (nat! e) (nat! x)) (nat! amt) with
+      | some (a, c) => ((), s!"offer {a} {c}")
+      | none => ((), "offer -")
+    | _ => ((), "bad-op")
+
 structure FwdSt where
   s : St := {}
   inAmt : Nat := 0
